@@ -637,10 +637,26 @@ func c08GenPod(t *rapid.T, name string, uid types.UID, genTime func(label string
 		p.Spec.Containers = append(p.Spec.Containers, ctr)
 	}
 	if rapid.IntRange(0, 2).Draw(t, "customAnnotations") == 0 {
-		switch rapid.IntRange(0, 3).Draw(t, "customFactors") {
+		switch rapid.SampledFrom([]int{0, 1, 2, 2, 3, 3}).Draw(t, "customFactors") {
 		case 0:
 		case 1:
 			p.Annotations[extension.AnnotationCustomEstimatedScalingFactors] = "{not json"
+		case 3: // opt-out of estimation: factor 0 for every resource, on a pod that does request cpu and memory -> all-zero estimate
+			p.Annotations[extension.AnnotationCustomEstimatedScalingFactors] = fmt.Sprintf(`{"cpu":0,"memory":0,%q:0}`, c08Extra)
+			ctr := &p.Spec.Containers[0]
+			if ctr.Resources.Requests == nil {
+				ctr.Resources.Requests = corev1.ResourceList{}
+			}
+			if _, ok := ctr.Resources.Requests[cpuName]; !ok {
+				if cpuName == corev1.ResourceCPU {
+					ctr.Resources.Requests[cpuName] = *resource.NewMilliQuantity(1000, resource.DecimalSI)
+				} else {
+					ctr.Resources.Requests[cpuName] = *resource.NewQuantity(1000, resource.DecimalSI)
+				}
+			}
+			if _, ok := ctr.Resources.Requests[memName]; !ok {
+				ctr.Resources.Requests[memName] = *resource.NewQuantity(1<<30, resource.BinarySI)
+			}
 		default:
 			f := map[corev1.ResourceName]int64{}
 			if rapid.Bool().Draw(t, "customCPU") {
@@ -684,7 +700,11 @@ func (e *c08Env) genUsageNear(t *rapid.T, est []int64, label string) corev1.Reso
 	rl := corev1.ResourceList{}
 	for i, n := range e.names {
 		var v int64
-		switch rapid.IntRange(0, 7).Draw(t, label+"Kind") {
+		kind := rapid.IntRange(0, 7).Draw(t, label+"Kind")
+		if est[i] == 0 && kind >= 2 && kind != 4 {
+			kind = 7 // nothing to aim at: a pod without estimate still uses something
+		}
+		switch kind {
 		case 0:
 			continue // resource not reported
 		case 1:
